@@ -27,10 +27,6 @@ ASSUMPTIONS = [
     "ordering and equality comparisons of scaled views are defined on the stored integer grid and excluded by the property",
     "indexing a one-element scaled view with a numpy integer returns a view object that cannot be materialised "
     "(np.array raises): counted as no result, as are expressions that raise on the view (reflected operands 1 + v, -v, v.sum())",
-    "max()/min() of a scaled view are called with axis/keepdims only (initial=/where= are applied to the stored grid by the "
-    "one-element fast path: reported, excluded)",
-    "v[i, cols], v[i, ...], v[np.int64(i)] and v[row list, col list] of a multi-element scaled view are 1-D views carrying one scale per "
-    "position: their values are checked, a second operation of the view itself on them (max()/min()) is excluded (reported)",
     "numpy resolves slices, masks and index lists to positions; the model receives the positions",
     "binary64 evaluation of (x * scale) + offset is numpy's; the model carries (scale index, offset index, x) symbolically",
 ]
@@ -127,6 +123,9 @@ FUNCS = {
     "max()": lambda x: x.max(), "min()": lambda x: x.min(), "max(0)": lambda x: x.max(0), "min(0)": lambda x: x.min(axis=0),
     "max(1)": lambda x: x.max(axis=1), "min(-1)": lambda x: x.min(axis=-1), "max(keepdims)": lambda x: x.max(axis=0, keepdims=True),
     "min(keepdims)": lambda x: x.min(keepdims=True), "max(initial)": lambda x: x.max(initial=3), "min(initial)": lambda x: x.min(initial=3),
+    "max(initial f)": lambda x: x.max(initial=0.25), "min(initial f)": lambda x: x.min(initial=-1e300), "max(None)": lambda x: x.max(None),
+    "max(where)": lambda x, o: x.max(where=o, initial=-100.0), "min(where)": lambda x, o: x.min(where=o, initial=1e12),
+    "max(axis kw)": lambda x: x.max(axis=None), "min(out)": lambda x: x.min(out=None),
     "np.sort": lambda x: np.sort(x), "np.argmax": lambda x: np.argmax(x), "np.argmin": lambda x: np.argmin(x),
     "np.argsort": lambda x: np.argsort(x, kind="stable"), "np.count_nonzero": lambda x: np.count_nonzero(x),
     "np.add.reduce": lambda x: np.add.reduce(x), "np.maximum.reduce": lambda x: np.maximum.reduce(x),
@@ -508,7 +507,7 @@ def rand_index_2d(rng, n, k):
     if ci in ("list", "mask") and cj == "list":      # pointwise pairs: lengths must agree most of the time
         cnt = sum(i[1]) if ci == "mask" else len(i[1])
         if rng.random() < 0.85:
-            j = ["list", [rng.randrange(-k, k) for _ in range(cnt)]]
+            j = ["list", [rng.randrange(-k, k) if k else 0 for _ in range(cnt)]]
     return ["tuple", [i, j]], f"({ci}, {cj})"
 
 
@@ -663,7 +662,8 @@ def sweep_subfield_functions(sw, sfs):
 
 SC_FUNCS0 = ["np.min", "np.max", "np.sum", "np.mean", "np.min0", "np.max0", "np.sum0", "np.mean0", "np.max_keepdims", "np.sum_dtype",
              "np.unique", "np.unique_counts", "np.unique_inverse", "np.concatenate_self", "np.concatenate_tuple", "np.where_nz",
-             "max()", "min()", "max(0)", "min(0)", "max(keepdims)", "min(keepdims)", "np.sort",
+             "max()", "min()", "max(0)", "min(0)", "max(keepdims)", "min(keepdims)", "max(initial)", "min(initial)", "max(initial f)",
+             "min(initial f)", "max(None)", "max(axis kw)", "min(out)", "np.sort",
              "np.argmax", "np.argmin", "np.count_nonzero", "np.add.reduce", "np.maximum.reduce", "np.stack", "np.vstack", "np.hstack",
              "np.cumsum", "np.nonzero", "np.any", "np.median", "np.ptp", "np.array", "np.asarray", "np.copy", "copy()", "np.array_f32",
              "len", "shape", "np.shape", "ndim", "np.ravel", "np.clip", "np.round", "np.floor", "np.abs", "np.take", "np.flip",
@@ -671,10 +671,6 @@ SC_FUNCS0 = ["np.min", "np.max", "np.sum", "np.mean", "np.min0", "np.max0", "np.
 SC_FUNCS_MULTI = ["np.max1", "np.min-1", "np.sum1", "np.mean-1", "max(1)", "min(-1)", "np.unique0", "np.concatenate1"]
 SC_FUNCS1 = ["np.isin", "np.isin_r", "np.concatenate", "np.concatenate_r", "np.add", "np.subtract", "np.multiply", "np.true_divide",
              "np.floor_divide", "np.maximum", "np.minimum_r", "np.less", "np.equal", "np.array_equal"]
-
-
-# index forms of a multi-element view whose result is a 1-D view with one scale per position (ASSUMPTIONS)
-PER_POSITION = {"(int, list)", "(int, slice)", "(int, ..)", "(list, list)", "(mask, list)", "numpy int"}
 
 
 def sweep_scaled(sw, count):
@@ -697,16 +693,20 @@ def sweep_scaled(sw, count):
             for o in ctx.rng.sample(opnds, 6):
                 sw.check(f"{tag} {fn}", data, ["fn", fn, o], env, ("scf", it, fn, tuple(map(str, o))[:3]))
         m = ["arr", "bool", [shape[0]] + [1] * (len(shape) - 1), [ctx.rng.random() < 0.5 for _ in range(shape[0])]]
-        for fn in ("np.where3", "np.where3_r", "np.where_self", "np.select"):
+        for fn in ("np.where3", "np.where3_r", "np.where_self", "np.select", "max(where)", "min(where)"):
             sw.check(f"{tag} {fn}", data, ["fn", fn, m], env, ("scf", it, fn))
         for _ in range(ctx.n(12, 30)):
             ix, cls = rand_index_2d(ctx.rng, shape[0], shape[1]) if multi else rand_index_1d(ctx.rng, shape[0])
             sw.check(f"{tag} index {cls}", data, ["idx", ix], env, ("sci", it, str(ix)), quiet_viewraises=True)
             follow = ctx.rng.choice([["op", ctx.rng.choice(ARITH), ctx.rng.choice(opnds[:16])],
-                                     ["fn", ctx.rng.choice(["np.max", "np.min", "np.sum", "max()", "min()", "np.mean", "np.unique", "max(0)", "min(-1)"])]])
-            if multi and cls in PER_POSITION and follow[0] == "fn" and follow[1].endswith(")"):
-                continue     # a second operation of the view itself on a 1-D result that carries one scale per position: excluded
-            sw.check(f"{tag} index {cls} then {follow[1] if follow[0] == 'fn' else SYM[follow[1]]}", data, ["seq", ["idx", ix], follow], env,
+                                     ["fn", ctx.rng.choice(["np.max", "np.min", "np.sum", "max()", "min()", "np.mean", "np.unique", "max(0)", "min(-1)",
+                                                            "max()", "min()", "max(initial f)", "min(initial)"])],
+                                     ["idx", rand_index_1d(ctx.rng, ctx.rng.choice([1, 2, 3, max(1, shape[0])]))[0]],
+                                     ["seq", ["idx", rand_index_1d(ctx.rng, ctx.rng.choice([1, 2, 3]))[0]], ["fn", ctx.rng.choice(["max()", "min()"])]]])
+            if follow[0] in ("idx", "seq") and not multi and data["dim"] not in "xyz" and cls in ("int", "numpy int"):
+                continue    # v[i] of a 1-element extra dimension has shape (1,) where numpy has (): equal up to a length-1 axis, a further index is not
+            fname = follow[1] if follow[0] == "fn" else SYM[follow[1]] if follow[0] == "op" else "index" if follow[0] == "idx" else "index then max/min"
+            sw.check(f"{tag} index {cls} then {fname}", data, ["seq", ["idx", ix], follow], env,
                      ("sci2", it, str(ix), str(follow)), quiet_viewraises=True)
 
 
@@ -988,7 +988,7 @@ def correspond(ctx):
     x_env = build(rand_scaled_data(ctx.rng, dim="x", n=5))
     # ---- routes: generated tables vs the running classes
     classes = {"av": None, "sf": hdr_env, "sc": sc_env}
-    lines = [f"route {c} {i}" for c in classes for i in range(len(OPS))] + [f"red {c} {m} {r}" for c in classes for m in "TF" for r in ("max", "min")]
+    lines = [f"route {c} {i}" for c in classes for i in range(len(OPS))]
     outs = dict(zip(lines, common.run_model(lines, name="c10")))
     pycls = {"av": dims.ArrayView, "sf": dims.SubFieldView, "sc": dims.ScaledArrayView}
     for c in classes:
@@ -1073,58 +1073,108 @@ def correspond(ctx):
             ctx.case(cmd, nontrivial=True)
             if im != mo:
                 dis.append({"kind": "subfield index", "input": {"format": desc[0], "field": desc[1], "index": desc[2]}, "model": mo, "impl": im})
-        # ---- scaled views: indexing and max/min
+        # ---- scaled views: indexing (one or two levels), kind of the result (values / view), max/min with and without initial=
         cases = []
         for it in range(ctx.n(1500, 15000)):
             data = rand_scaled_data(ctx.rng)
             env = build(data)
             vt, n, k = view_tok(env)
+            v = env["get"]()
+            a = np.array(v)
+            ixs, toks, cls = [], [], "no index"
             if ctx.rng.random() < 0.8:
                 ix, cls = rand_index_2d(ctx.rng, n, k) if k is not None else rand_index_1d(ctx.rng, n)
                 tok = model_ix(ix, n, k)
                 if tok is None:
                     continue
-                v = env["get"]()
-                iv = ev(lambda: v[mk_index(ix)])
-                inp = ev(lambda: np.array(v)[mk_index(ix)])
-                cases.append((f"index {vt} {tok}", "index", env, data, ix, cls, iv, inp))
+                ixs, toks = [ix], [tok]
+                if ctx.rng.random() < 0.4:
+                    try:
+                        shp = a[mk_index(ix)].shape
+                    except Exception:
+                        shp = None
+                    if shp is not None and len(shp) >= 1:
+                        ix2, cls2 = rand_index_2d(ctx.rng, shp[0], shp[1]) if len(shp) == 2 and ctx.rng.random() < 0.6 else rand_index_1d(ctx.rng, shp[0])
+                        tok2 = model_ix(ix2, shp[0], shp[1] if len(shp) == 2 else None)
+                        if tok2 is not None:
+                            ixs.append(ix2)
+                            toks.append(tok2)
+                            cls = cls + " then " + cls2
+
+            def walk(x, ixs=ixs):
+                for q in ixs:
+                    x = x[mk_index(q)]
+                return x
+            expr = ["seq"] + [["idx", q] for q in ixs] if ixs else ["seq"]
+            if ixs and ctx.rng.random() < 0.7:
+                try:
+                    res = walk(v)
+                    iv = ("ok", freeze(res), "view" if is_view(res) else "value")
+                except Exception as ex:
+                    iv = ("err", common.exc_kind(ex), str(ex)[:60])
+                inp = ev(lambda: walk(a))
+                cases.append((f"index {vt} " + " ".join(toks), "index", env, data, expr, cls, iv, inp, k))
             else:
                 r = ctx.rng.choice(["max", "min"])
-                v = env["get"]()
-                iv = ev(lambda: getattr(v, r)())
-                inp = ev(lambda: getattr(np.array(v), r)())
-                cases.append((f"reduce {r} {vt}", "reduce", env, data, r, r, iv, inp))
+                init = ctx.rng.choice([None, None, 0.25, -1e300, 1e300, 3])
+                kw = {} if init is None else {"initial": init}
+                iv = ev(lambda: getattr(walk(v), r)(**kw))
+                inp = ev(lambda: getattr(walk(a), r)(**kw))
+                cases.append((f"reduce {r} {'F' if init is None else 'T'} {vt} " + " ".join(toks), "reduce", env, data,
+                              expr + [["fn", f"{r}()" if init is None else f"{r}(initial={init})"]], cls, iv, inp, (r, kw)))
         outs = common.run_model([c[0] for c in cases], name="c10")
-        for (cmd, what, env, data, ix, cls, iv, inp), mo in zip(cases, outs):
+        for (cmd, what, env, data, expr, cls, iv, inp, extra), mo in zip(cases, outs):
             ctx.traces += 1
             ctx.case(cmd, nontrivial=True)
-            ctx.count("model scaled " + what)
-            if what == "index":
-                if mo.startswith("fail") or len(mo.split(" ")) != 2:
-                    dis.append({"kind": "model driver", "input": {"cmd": cmd[:200]}, "model": mo[:120], "impl": ""})
-                    continue
-                mv, mn = mo.split(" ")
-                ev_, en_ = nd_expected(mv, env), nd_expected(mn, env)
+            ctx.count("model scaled " + what + (" chain" if " then " in cls else ""))
 
-                def agree(exp, got):
-                    if exp is None:
-                        return got[0] != "ok"
-                    return got[0] == "ok" and squeeze_shape(np.asarray(got[1])) == squeeze_shape(exp) and bits(got[1]) == bits(exp)
+            def agree(exp, got):
+                if exp is None:
+                    return got[0] != "ok"
+                return got[0] == "ok" and squeeze_shape(np.asarray(got[1])) == squeeze_shape(np.asarray(exp)) and bits(got[1]) == bits(exp)
+            if mo.startswith("fail"):
+                dis.append({"kind": "model driver", "input": {"cmd": cmd[:200]}, "model": mo[:120], "impl": ""})
+                continue
+            if what == "index":
+                mk, mv, mn = mo.split(" ")
+                ev_, en_ = nd_expected(mv, env), nd_expected(mn, env)
                 if not agree(ev_, iv):
-                    dis.append({"kind": f"scaled index {cls}", "input": {"data": data, "expr": ["idx", ix]}, "model": mv[:120], "impl": describe(iv)})
+                    dis.append({"kind": f"scaled index {cls}", "input": {"data": data, "expr": expr}, "model": mv[:120], "impl": describe(iv[:2] + ("",))[:160]})
+                elif extra is not None and iv[0] == "ok" and mk != iv[2]:
+                    dis.append({"kind": f"scaled index {cls}: kind of the result", "input": {"data": data, "expr": expr}, "model": mk, "impl": iv[2]})
                 if not agree(en_, inp):
-                    dis.append({"kind": f"model of numpy indexing {cls}", "input": {"data": data, "expr": ["idx", ix]}, "model": mn[:120], "impl": describe(inp)})
+                    dis.append({"kind": f"model of numpy indexing {cls}", "input": {"data": data, "expr": expr}, "model": mn[:120], "impl": describe(inp)})
             else:
-                if mo.startswith("grid:"):
+                r, kw = extra
+                if mo == "nochain":
+                    exp = None
+                elif mo.startswith("grid:"):
                     exp = nd_expected("sc:" + mo[5:], env) if mo != "grid:none" else None
                 elif mo.startswith("mat:"):
-                    arr = nd_expected(mo.split(":", 2)[2], env)
-                    exp = getattr(arr, mo.split(":")[1])() if arr.size else None
+                    _, r2, hasinit, ndtok = mo.split(":", 3)
+                    arr = nd_expected(ndtok, env)
+                    if (hasinit == "init") != bool(kw):
+                        exp = "?"
+                    else:
+                        try:
+                            exp = getattr(np.asarray(arr), r2)(**kw)
+                        except ValueError:
+                            exp = None
                 else:
                     exp = "?"
-                ok = (iv[0] != "ok") if exp is None else (not isinstance(exp, str) and iv[0] == "ok" and bits(iv[1]) == bits(exp))
+                ok = (not isinstance(exp, str)) and agree(exp, iv)
                 if not ok:
-                    dis.append({"kind": f"scaled {ix}()", "input": {"data": data, "expr": ["fn", ix + "()"]}, "model": mo[:120], "impl": describe(iv)})
+                    dis.append({"kind": f"scaled {r}() after {cls}", "input": {"data": data, "expr": expr}, "model": mo[:120], "impl": describe(iv)})
+        # ---- the three routes of max/min
+        for c in classes:
+            for m in "TF":
+                for a_ in "TF":
+                    for r in ("max", "min"):
+                        mo = common.run_model([f"red {c} {m} {a_} {r}"], name="c10")[0]
+                        want = f"grid {r}" if (c == "sc" and m == "F" and a_ == "F") else f"mat {r}"
+                        ctx.traces += 1
+                        if mo != want:
+                            dis.append({"kind": f"route {c} {r}()", "input": {"class": c, "multi": m, "args": a_}, "model": mo, "impl": want + " (observed on values above)"})
     # ---- expressions for which the model predicts a result (delegation) and the view raises
     sw = get_sweep(ctx)
     for k, d in sw.viewraises.items():
